@@ -172,13 +172,16 @@ def extract(repo, dest):
         shutil.rmtree(tmp, ignore_errors=True)
 
 
-def prune(keep=8):
+def prune(keep=24, min_age_s=900):
+    """drop old fact sets; never one that was used in the last 15 minutes (another check may be reading it)"""
     d = os.path.join(CACHE, "facts")
     if not os.path.isdir(d):
         return
+    now = time.time()
     ents = sorted((os.path.getmtime(os.path.join(d, e)), e) for e in os.listdir(d))
-    for _, e in ents[:-keep]:
-        shutil.rmtree(os.path.join(d, e), ignore_errors=True)
+    for mt, e in ents[:-keep]:
+        if now - mt > min_age_s:
+            shutil.rmtree(os.path.join(d, e), ignore_errors=True)
 
 
 def facts_dir(repo="/repo"):
